@@ -1,6 +1,6 @@
 (* Extraction of the C09 model (and the boolean hypotheses of the theorems) for the correspondence check. *)
 From V.lib Require Import Base.
-From V.c09 Require Import C09Model C09Spec C09BuildModel C09PureModel.
+From V.c09 Require Import C09Model C09Spec C09BuildModel C09PureModel C09TimeCodeModel.
 Require Import ExtrOcamlBasic.
 Separate Extraction
   tables stsc_box ctts_box stsz_box chunk sample range
@@ -12,4 +12,5 @@ Separate Extraction
   consistent deltas_positive
   ctts_empty ctts_run ctts_table stsc_empty stsc_call stsc_call_res stsc_run stsc_table stsc_of_table
   nz sdis stsc_call_ok rows_ok raw_ok ctts_call_ok nchunks
-  fstate query answer run run_all eval.
+  fstate query answer run run_all eval
+  stts_get_time_code stts_get_time_code_pinned.
